@@ -733,7 +733,10 @@ if __name__ == "__main__":
 
 
 def random_theta(rng, name, wide=True):
-    """admissible parameter vector of a family, several orders of magnitude"""
+    """admissible parameter vector of a family, several orders of magnitude (`wide`: scales over 4 decades, shape
+    parameters over 2-4 decades incl. scipy's large-kappa branch of the von Mises law; not `wide`: the moderate region in
+    which real fits are run).  Location-type parameters (mu, gamma, loc) are exactly 0.0 in a fixed share of the draws:
+    a falsy value that has to be honoured like any other."""
     u = rng.uniform
 
     def lu(a, b):
@@ -741,26 +744,36 @@ def random_theta(rng, name, wide=True):
 
     if name == "WeibullDistribution":
         g = float(rng.choice([0.0, 0.0, lu(-1, 1), -lu(-1, 1)]))
-        return {"alpha": lu(-2, 2) if wide else lu(-0.5, 0.7), "beta": lu(-0.3, 0.75), "gamma": g}
+        return {"alpha": lu(-2, 2) if wide else lu(-0.5, 0.7), "beta": lu(-0.6, 1.6) if wide else lu(-0.3, 0.75),
+                "gamma": g}
     if name == "LogNormalDistribution":
-        mu = float(rng.choice([u(-3, 3), u(-3, 3), lu(-6, -3), -lu(-6, -3)])) if wide else u(-1, 1.5)
-        return {"mu": mu, "sigma": lu(-1.3, 0.4)}
+        mu = float(rng.choice([u(-3, 3), u(-3, 3), lu(-6, -3), -lu(-6, -3), 0.0])) if wide else float(
+            rng.choice([u(-1, 1.5), u(-1, 1.5), u(-1, 1.5), 0.0]))
+        return {"mu": mu, "sigma": lu(-2.3, 0.4) if wide else lu(-1.3, 0.4)}
     if name == "NormalDistribution":
         mu = float(rng.choice([1, -1])) * lu(-2, 3) if wide else u(-3, 3)
+        if rng.integers(0, 5) == 0:
+            mu = 0.0
         return {"mu": mu, "sigma": lu(-2, 2) if wide else lu(-0.5, 0.7)}
     if name == "LogNormalNormFitDistribution":
         m = lu(-1, 2) if wide else lu(-0.3, 1)
-        return {"mu_norm": m, "sigma_norm": m * lu(-1.5, 0.4)}
+        return {"mu_norm": m, "sigma_norm": m * (lu(-2.5, 0.4) if wide else lu(-1.5, 0.4))}
     if name == "ExponentiatedWeibullDistribution":
-        return {"alpha": lu(-2, 2) if wide else lu(-0.5, 0.7), "beta": lu(-0.3, 0.7), "delta": lu(-0.5, 1)}
+        if wide:
+            return {"alpha": lu(-2, 2), "beta": lu(-0.6, 1.4), "delta": lu(-0.6, 1.7)}
+        return {"alpha": lu(-0.5, 0.7), "beta": lu(-0.3, 0.7), "delta": lu(-0.5, 1)}
     if name == "GeneralizedGammaDistribution":
-        return {"m": lu(-0.3, 1), "c": lu(-0.3, 0.6), "lambda_": lu(-2, 2) if wide else lu(-0.7, 0.5)}
+        if wide:
+            return {"m": lu(-1, 1.3), "c": lu(-0.6, 0.5), "lambda_": lu(-2, 2)}
+        return {"m": lu(-0.3, 1), "c": lu(-0.3, 0.6), "lambda_": lu(-0.7, 0.5)}
     if name == "VonMisesDistribution":
-        return {"kappa": lu(-1, 1.5), "mu": u(-3, 3)}
+        mu = u(-3, 3) if rng.integers(0, 5) else 0.0
+        return {"kappa": lu(-2, 2.5) if wide else lu(-1, 1.5), "mu": mu}
     if name == "GammaScipyDistribution":
-        return {"a": lu(-0.3, 1), "loc": float(rng.choice([0.0, u(-2, 2)])), "scale": lu(-1, 1)}
+        return {"a": lu(-1, 2) if wide else lu(-0.3, 1), "loc": float(rng.choice([0.0, u(-2, 2)])), "scale": lu(-1, 1)}
     if name == "BetaScipyDistribution":
-        return {"a": lu(-0.3, 0.8), "b": lu(-0.3, 0.8), "loc": float(rng.choice([0.0, u(-2, 2)])),
+        lo, hi = (-0.3, 1.5) if wide else (-0.3, 0.8)
+        return {"a": lu(lo, hi), "b": lu(lo, hi), "loc": float(rng.choice([0.0, u(-2, 2)])),
                 "scale": lu(-1, 1)}
     if name == "GumbelScipyDistribution":
         loc = float(rng.choice([0.0, u(-2, 2), lu(-1, 3), -lu(-1, 3)])) if wide else float(rng.choice([0.0, u(-2, 2)]))
@@ -779,9 +792,11 @@ def random_values(rng, name, wide=True):
     return list(th.values())
 
 
-def run_get_row_concrete(row, arg, farg, expl, dep, x):
+def run_get_row_concrete(row, arg, farg, expl, dep, x, arrays=False):
     """Execute the call a get-row describes on the real code with concrete numbers.
     arg/farg/expl/dep: lists of floats per parameter number.
+    `arrays`: explicit parameters / values of the dependence functions are handed over as ndarrays of the shape of x
+    (one value per point, the way ConditionalDistribution is used with an array of conditioning values).
     Returns dict(value=..., exc=...), and the effective parameter dict of the law."""
     import virocon.distributions as vd
 
@@ -798,11 +813,17 @@ def run_get_row_concrete(row, arg, farg, expl, dep, x):
             eff[pn] = farg[p]
         else:
             eff[pn] = arg[p]
+    if arrays:
+        expl = [None if v is None else np.full(np.shape(x), float(v)) for v in expl]
     try:
         with np.errstate(all="ignore"):
             if mode == 2:
                 inst = cls(**{"f_" + params[p]: farg[p] for p in F})
-                deps = {params[p]: (lambda given, p=p: dep[p]) for p in range(len(params)) if p not in F}
+                if arrays:
+                    deps = {params[p]: (lambda given, p=p: np.full(np.shape(given), float(dep[p])))
+                            for p in range(len(params)) if p not in F}
+                else:
+                    deps = {params[p]: (lambda given, p=p: dep[p]) for p in range(len(params)) if p not in F}
                 cd = vd.ConditionalDistribution(inst, deps)
                 out["value"] = getattr(cd, meth)(x, np.full(np.shape(x), 1.0))
             else:
